@@ -627,3 +627,30 @@ impl Text {
         }
     }
 }
+
+/// Runs one monitor case; a panic is attributed by its location: inside /repo it is a violation of
+/// `prop`, anywhere else it is a monitor bug (inconclusive). Returns false if it panicked.
+pub fn guard_case(rep: &mut crate::report::Report, prop: &str, case_id: &str, f: impl FnOnce(&mut crate::report::Report)) -> bool {
+    let r = {
+        let rep_ref: &mut crate::report::Report = rep;
+        catch_unwind(AssertUnwindSafe(|| f(rep_ref)))
+    };
+    match r {
+        Ok(()) => true,
+        Err(_) => {
+            let msg = last_panic();
+            let loc = msg.rsplit(" @ ").next().unwrap_or("").to_owned();
+            if loc.starts_with("/repo/") {
+                rep.violation(
+                    prop,
+                    "panic",
+                    format!("panic@{loc}"),
+                    crate::jobj! {"message" => msg, "case_id" => case_id.to_owned()},
+                );
+            } else {
+                rep.inconclusive(format!("monitor panicked outside the repository code: {msg}"));
+            }
+            false
+        }
+    }
+}
